@@ -37,6 +37,10 @@ inductive Sys
   | fsync (ok : Bool)
   | fdatasync (ok : Bool)
   | ftruncate (len : Nat)                       -- preallocation of a fresh journal file
+  /-- directory-level events of a journal rotation (not numbered as journal system calls): the next
+      journal file is created, the folder holding the journal files is fsynced -/
+  | create
+  | dirsync
   deriving Repr, DecidableEq
 
 inductive PersistMode | buffer | syncData | syncAll
@@ -145,6 +149,12 @@ structure JDb where
   manual : Bool := false          -- manual_journal_persist
   /-- sealed journal files: (content, length known durable) -/
   sealed : List (Bytes × Nat) := []
+  /-- journal files created so far (sealed ones and the active one) -/
+  created : Nat := 1
+  /-- how many of them, oldest first, have a directory entry that survives a power loss -/
+  dirDurable : Nat := 1
+  /-- `Writer::rotate` fsyncs the journal folder after creating the next file (false: seeded change C09-7) -/
+  rotateSyncsFolder : Bool := true
   deriving Repr, DecidableEq
 
 inductive JOp
@@ -202,10 +212,19 @@ def jstep (db : JDb) : JOp → JDb × JRes
     match db.w.persist .syncAll with
     | (w', .err) => ({ db with w := w', poisoned := true }, .poisoned)
     | (w', .ok) =>
-      -- `Writer::create_new`: preallocate the fresh file and sync it (no fault plan in rotation workloads)
+      -- `Writer::create_new`: create the fresh file, preallocate and sync it; then `rotate` syncs the
+      -- folder (no fault plan in rotation workloads)
       ({ db with w := { w' with os := [], synced := 0, calls := w'.calls + 2,
-                                 trace := w'.trace ++ [.ftruncate 67108864, .fsync true] },
-                 sealed := db.sealed ++ [(w'.os, w'.synced)] }, .ok)
+                                 trace := w'.trace ++ [.create, .ftruncate 67108864, .fsync true] ++
+                                   (if db.rotateSyncsFolder then [.dirsync] else []) },
+                 sealed := db.sealed ++ [(w'.os, w'.synced)],
+                 created := db.created + 1,
+                 dirDurable := if db.rotateSyncsFolder then db.created + 1 else db.dirDurable }, .ok)
+
+/-- what a power loss leaves of the journal folder: of the files whose directory entry is durable,
+    the bytes covered by a successful sync (oldest file first, the active one last) -/
+def JDb.powerLossFiles (db : JDb) : List Bytes :=
+  ((db.sealed.map fun p => p.1.take p.2) ++ [db.w.os.take db.w.synced]).take db.dirDurable
 
 def jrun (db : JDb) : List JOp → JDb × List JRes
   | [] => (db, [])
